@@ -60,7 +60,29 @@ def make_newton(cfg):
         CTX.assume(eps.n > 0)
         CTX.assume(tol.n > 0)
         A = mf.sym_matrix("a", n)
-        X, Mm, flag, it, err = M._matrix_inverse_root_newton(mf.tens(A), p, epsilon=eps, max_iterations=iters, tolerance=tol)
+        At = mf.tens(A)
+        if cfg.get("via_public"):
+            # through the public entry point: every field of the configuration (symbolic tolerance, iteration limit) must reach the iteration
+            from fractions import Fraction
+            from matrix_functions_types import CoupledNewtonConfig
+
+            got, orig = [], M._matrix_inverse_root_newton
+
+            def rec(*a, **k):
+                got.append(orig(*a, **k))
+                return got[-1]
+
+            M._matrix_inverse_root_newton = rec
+            try:
+                Xpub = M.matrix_inverse_root(At, Fraction(p), root_inv_config=CoupledNewtonConfig(max_iterations=iters, tolerance=tol), epsilon=eps)
+            finally:
+                M._matrix_inverse_root_newton = orig
+            symx.prove("the public entry point runs the coupled Newton iteration once", len(got) == 1, info)
+            X, Mm, flag, it, err = got[0]
+            mf.prove_all_equal("the public entry point returns the iteration's X", Xpub.a, X.a, info)
+        else:
+            X, Mm, flag, it, err = M._matrix_inverse_root_newton(At, p, epsilon=eps, max_iterations=iters, tolerance=tol)
+        mf.prove_all_equal("the caller's matrix is left unchanged", At.a, A, info)
         Ar = A.copy()
         for i in range(n):
             Ar[i, i] = Ar[i, i] + eps
@@ -118,11 +140,13 @@ def make_higher(cfg):
         torch.backends.cuda.matmul.allow_tf32 = tf0
         raised = None
         try:
-            X, Mm, flag, it, terr = M._matrix_inverse_root_higher_order(mf.tens(A), root, rel_epsilon=0.0, abs_epsilon=eps, max_iterations=iters, tolerance=tol,
+            At = mf.tens(A)
+            X, Mm, flag, it, terr = M._matrix_inverse_root_higher_order(At, root, rel_epsilon=0.0, abs_epsilon=eps, max_iterations=iters, tolerance=tol,
                                                                        order=order, disable_tf32=cfg.get("disable_tf32", True))
         except ArithmeticError as e:
             raised = e
         symx.prove("the tf32 flag is restored on every path", torch.backends.cuda.matmul.allow_tf32 == tf0, info)
+        mf.prove_all_equal("the caller's matrix is left unchanged", At.a, A, info)
         Ar = A.copy()
         for i in range(n):
             Ar[i, i] = Ar[i, i] + eps
@@ -241,6 +265,7 @@ def jobs_for(tier):
     for p, it in ((1, 1), (1, 2), (2, 1), (2, 2)):
         add("make_newton", n=2, root=p, max_iterations=it)
     add("make_newton", n=1 + 1, root=2, max_iterations=0)
+    add("make_newton", n=2, root=2, max_iterations=2, via_public=True)
     add("make_higher", n=2, root="1", order=2, max_iterations=1)
     add("make_higher", n=2, root="2", order=3, max_iterations=1)
     add("make_higher", n=2, root="2", order=2, max_iterations=2, tf32=False)
@@ -281,6 +306,7 @@ def make_eigen(cfg):
             X = M._matrix_inverse_root_eigen(At, root, epsilon=eps, enhance_stability=enh)[0]
         else:
             X = M.matrix_inverse_root(At, root, root_inv_config=EigenConfig(enhance_stability=enh, exponent_multiplier=cfg.get("exponent_multiplier", 1.0)), epsilon=eps, is_diagonal=False)
+        mf.prove_all_equal("the caller's matrix is left unchanged", At.a, A, info)
         symx.prove("one eigendecomposition", len(log["eigh"]) == 1, info)
         rec = log["eigh"][0]
         Aexp = A.copy()
@@ -409,6 +435,41 @@ def replay(record):
                 break
     elif kind == "coupled-newton":
         p = cfg["root"]
+        if cfg.get("via_public"):
+            # the configuration's fields must govern the iteration run by the public entry point: stopping relations at several tolerances / limits
+            from matrix_functions_types import CoupledNewtonConfig
+
+            got, orig = [], M._matrix_inverse_root_newton
+
+            def rec(*a, **k):
+                got.append(orig(*a, **k))
+                return got[-1]
+
+            M._matrix_inverse_root_newton = rec
+            try:
+                for A, e, tol_, mi in itertools.product(cands[:6], epss[:2], (1e-2, 1e-6, 1e-9, 1e-13), (3, 200)):
+                    del got[:]
+                    A0 = A.clone()
+                    M.matrix_inverse_root(A, Fraction(p), root_inv_config=CoupledNewtonConfig(max_iterations=mi, tolerance=tol_), epsilon=e)
+                    if len(got) != 1:
+                        probs.append("the public entry point does not run the coupled Newton iteration exactly once")
+                        break
+                    _, _, flag, it, err = got[0]
+                    err = float(err)
+                    if not torch.equal(A, A0):
+                        probs.append(f"the caller's matrix was modified (A={A0.tolist()} eps={e})")
+                        break
+                    if flag == M.NewtonConvergenceFlag.CONVERGED and not err <= tol_:
+                        probs.append(f"CoupledNewtonConfig(tolerance={tol_}, max_iterations={mi}): CONVERGED reported with error {err:.3e} above the configured tolerance (A={A0.tolist()} eps={e})")
+                        break
+                    if flag != M.NewtonConvergenceFlag.CONVERGED and (int(it) < mi or err <= tol_):
+                        probs.append(f"CoupledNewtonConfig(tolerance={tol_}, max_iterations={mi}): stopped after {int(it)} iterations with error {err:.3e} and flag {flag.name} (A={A0.tolist()} eps={e})")
+                        break
+                    if int(it) > mi:
+                        probs.append(f"CoupledNewtonConfig(max_iterations={mi}): {int(it)} iterations run")
+                        break
+            finally:
+                M._matrix_inverse_root_newton = orig
         for A, e in itertools.product(cands, epss):
             X, Mm, flag, it, err = M._matrix_inverse_root_newton(A, p, epsilon=e, max_iterations=200, tolerance=1e-10)
             lam, Q = torch.linalg.eigh(A + e * torch.eye(n, dtype=torch.float64))
